@@ -317,6 +317,14 @@ class GraphInitializers(collections.UserDict[str, "_core.Value"]):
         self._set_graph(value)
         super().__setitem__(key, value)
 
+    def __ior__(self, other):
+        """In-place union is not supported.
+
+        ``graph.initializers`` cannot be re-assigned, and the implementation inherited from
+        ``UserDict`` would store the values without tracking their ownership. Use ``update()``.
+        """
+        raise RuntimeError("Method is not supported. Use update() instead")
+
     def __delitem__(self, key: str) -> None:
         """Delete an initializer from the graph."""
         value = self.data[key]
